@@ -175,8 +175,9 @@ class Publish:
 
         self.data = data
 
-        # XXX: Use the MutableFileVersion instead.
-        self.datalength = self._node.get_size()
+        # the length of the version being updated (verinfo[4]); the size
+        # cached on the node can be stale after an earlier in-place update
+        self.datalength = version[4]
         if data.get_size() > self.datalength:
             self.datalength = data.get_size()
 
